@@ -854,6 +854,27 @@ pub fn replay(reg: &Registry, input: &str, out: &mut Out) -> (usize, usize) {
                     let t = reg.ty(e["T"].as_str()?)?;
                     Some((t.lookup_scale(amt_from_x(&e["key"])?), json!({"out": e["out"]})))
                 }
+                "Rate" => {
+                    let (tq, pq, kind) = (e["TQ"].as_str()?, e["PQ"].as_str()?, e["kind"].as_str()?);
+                    let rp = reg.rates.iter().find(|r| r.tq == tq && r.pq == pq)?;
+                    let (tt, pt) = (reg.ty(tq)?, reg.ty(pq)?);
+                    let ot = if kind == "qdr" { tt } else { pt };
+                    let rate = &e["rate"];
+                    Some(((rp.f)(kind, amt_from_x(&rate["ta"])?, unit_idx(tt, rate["tu"].as_str()?)?, amt_from_x(&rate["pm"])?, unit_idx(pt, rate["pu"].as_str()?)?,
+                                 amt_from_x(&e["q"]["a"])?, unit_idx(ot, e["q"]["u"].as_str()?)?),
+                          json!({"out": e["out"]})))
+                }
+                "Table" => {
+                    let tn = e["T"].as_str()?;
+                    let t = reg.ty(tn)?;
+                    let tb = reg.tables.iter().find(|x| x.t == tn)?;
+                    let mut rows = vec![];
+                    for r in e["rows"].as_array()? {
+                        rows.push((unit_idx(t, r["from"].as_str()?)?, unit_idx(t, r["to"].as_str()?)?, amt_from_x(&r["f"])?, amt_from_x(&r["o"])?));
+                    }
+                    Some(((tb.f)(&rows, amt_from_x(&e["v"]["a"])?, unit_idx(t, e["v"]["u"].as_str()?)?, unit_idx(t, e["to"].as_str()?)?, false),
+                          json!({"out": e["out"]})))
+                }
                 _ => None,
             }
         })();
